@@ -12,6 +12,7 @@ CONSTANTS
   Variant = "shipped"
   NConn = 2
   MaxSteps = 3
+  Routes = {"typed"}
   Mech = "memo_on_class"
 INIT SInit
 NEXT SNext
